@@ -30,9 +30,9 @@ namespace SqlObjVerif.Tx
 @[simp] theorem Conn.weaken_insts (c : Conn) (k : Key) : (c.weaken k).insts = c.insts := by
   unfold Conn.weaken; repeat' split
   all_goals rfl
-@[simp] theorem Conn.purge_n (c : Conn) : c.purge.n = c.n := rfl
-@[simp] theorem Conn.purge_insts (c : Conn) : c.purge.insts = c.insts := rfl
-@[simp] theorem Conn.purge_strong (c : Conn) : c.purge.strong = c.strong := rfl
+@[simp] theorem Conn.purge_n (c : Conn) (cls : Nat) : (c.purge cls).n = c.n := rfl
+@[simp] theorem Conn.purge_insts (c : Conn) (cls : Nat) : (c.purge cls).insts = c.insts := rfl
+@[simp] theorem Conn.purge_strong (c : Conn) (cls : Nat) : (c.purge cls).strong = c.strong := rfl
 @[simp] theorem Conn.cacheGet_n (dc : Bool) (c : Conn) (k : Key) : (c.cacheGet dc k).2.n = c.n := by
   unfold Conn.cacheGet; repeat' split
   all_goals rfl
@@ -202,7 +202,7 @@ theorem ConnWF.weaken {c : Conn} (wf : ConnWF c) (k : Key) : ConnWF (c.weaken k)
       intro x j' h; simp only [upd_apply] at h; have := sk1 x j'; grind
   · exact ⟨l1, f1, sk1, wk1⟩
 
-theorem ConnWF.purge {c : Conn} (wf : ConnWF c) : ConnWF c.purge := by
+theorem ConnWF.purge {c : Conn} (wf : ConnWF c) (cls : Nat) : ConnWF (c.purge cls) := by
   obtain ⟨l1, f1, sk1, wk1⟩ := wf
   refine ⟨l1, f1, sk1, ?_⟩
   intro x j h
@@ -370,8 +370,8 @@ theorem opDrop_inv {s : St} (hi : Inv s) (sd : Side) (j : Nat) : Inv (opDrop s s
 theorem weaken_inv {s : St} (hi : Inv s) (sd : Side) (k : Key) : Inv (s.setConn sd ((s.conn sd).weaken k)) :=
   hi.setConn sd _ ((hi.coh sd).of_insts (by simp)) ((hi.wf sd).weaken k)
 
-theorem purge_inv {s : St} (hi : Inv s) (sd : Side) : Inv (s.setConn sd (s.conn sd).purge) :=
-  hi.setConn sd _ ((hi.coh sd).of_insts (by simp)) (hi.wf sd).purge
+theorem purge_inv {s : St} (hi : Inv s) (sd : Side) (cls : Nat) : Inv (s.setConn sd ((s.conn sd).purge cls)) :=
+  hi.setConn sd _ ((hi.coh sd).of_insts (by simp)) ((hi.wf sd).purge cls)
 
 theorem selStep_inv (sd : Side) {acc : St × List (Nat × Key)} (hi : Inv acc.1) (k : Key) :
     Inv (selStep sd acc k).1 := by
@@ -781,7 +781,7 @@ theorem step_inv {s : St} (hi : Inv s) (op : Op) (hg : good s op = true) : Inv (
   | select sd cls => exact opSelect_inv hi sd cls
   | drop sd j => exact opDrop_inv hi sd j
   | weaken sd k => exact weaken_inv hi sd k
-  | purge sd => exact purge_inv hi sd
+  | purge sd cls => exact purge_inv hi sd cls
   | commit close => exact opCommit_inv hi close hg
   | rollback => exact opRollback_inv hi hg
   | begin => exact opBegin_inv hi
@@ -790,6 +790,12 @@ theorem step_inv {s : St} (hi : Inv s) (op : Op) (hg : good s op = true) : Inv (
 def GoodHist : St → List Op → Prop
   | _, [] => True
   | s, op :: ops => good s op = true ∧ GoodHist (step s op).1 ops
+
+instance GoodHist.dec : (s : St) → (ops : List Op) → Decidable (GoodHist s ops)
+  | _, [] => isTrue trivial
+  | s, op :: ops =>
+    have := GoodHist.dec (step s op).1 ops
+    inferInstanceAs (Decidable (good s op = true ∧ GoodHist (step s op).1 ops))
 
 theorem run_inv {s : St} (hi : Inv s) (ops : List Op) (hg : GoodHist s ops) : Inv (run s ops) := by
   induction ops generalizing s with
